@@ -8,6 +8,7 @@ import (
 	"errors"
 	"io"
 	"sync"
+	"time"
 
 	"github.com/apache/thrift/lib/go/thrift"
 )
@@ -29,9 +30,10 @@ type scriptT struct {
 	writeBlock chan struct{} // if non-nil Write blocks until closed
 	flushBlock chan struct{} // if non-nil Flush blocks until closed or ctx done
 
-	wbuf    []byte         // written, not yet flushed
-	onFlush func(b []byte) // called (outside the lock) with each flushed chunk
-	flushed [][]byte
+	wbuf     []byte         // written, not yet flushed
+	onFlush  func(b []byte) // called (outside the lock) with each flushed chunk
+	staleEOF bool           // see Read
+	flushed  [][]byte
 
 	opens, closes int
 }
@@ -98,6 +100,16 @@ func (s *scriptT) Read(p []byte) (int, error) {
 	gen := s.gen
 	for {
 		if !s.open || s.gen != gen {
+			if s.staleEOF {
+				// a pipe-like stream: the local close reaches the blocked reader as EOF, and late
+				deadline := time.Now().Add(30 * time.Millisecond)
+				for !(s.open && s.gen != gen) && time.Now().Before(deadline) {
+					s.mu.Unlock()
+					time.Sleep(200 * time.Microsecond)
+					s.mu.Lock()
+				}
+				return 0, eofErr()
+			}
 			return 0, errScriptClosed
 		}
 		if len(s.in) > 0 {
